@@ -75,13 +75,15 @@ CLAIMS = {
         technique="Lean 4 proof (induction over the scan) + differential correspondence of the dependency graph",
     ),
     "C04": dict(
-        text="The pinned code violates the property (known finding cp-underreport). Proved: the negative result on a witness "
-             "(cp_underreports, replayed on the real code), cp_no_deps, longestChain_is_max (the Spec DP is the maximum over all chains), cp_never_overreports (every candidate of the model totals <= the longest chain): the defect is one-sided; the Lean model of the code as it is "
-             "(cpCandidates) is tied to get_critical_path by correspondence, and Spec.longestChain is evaluated on every kernel: "
-             "over-reporting, broken chains, sub-single-instruction values and deviations from the model are reported.",
+        text="get_critical_path was repaired (fix 2f8e653: the longest chain computed in one pass over the lines). Model LCD.cpTotal "
+             "mirrors the repaired function; Spec.longestChain is the declarative DP, proved to be the maximum over all genuine chains "
+             "(longestChain_ge_chain, longestChain_is_max). Every kernel: reported total vs the model, vs Spec.longestChain in both "
+             "directions, marked lines form a chain, per-line CP latencies are the chain's stages. Theorems about the unrepaired "
+             "variant (cp_underreports witness, cp_never_overreports) are kept.",
         category="translation_validation",
-        design="5/C04", note=COMMON_NOTE + "Modelled not verified: networkx path search (replaced by the model's own enumeration), the parsers and the role assignment (taken from the implementation per kernel: the model consumes the implementation's semantic operands, latencies and register changes). Under-reporting is the known finding; not claimed at proof level because the full statement is false of the code.",
-        technique="Lean 4 model + negative theorem on a witness; differential correspondence and Spec oracle",
+        design="5/C04", note=COMMON_NOTE + "Claimed below proof level until cpTotal_eq_longestChain (model of the repaired function = the declarative DP) "
+             "is merged; networkx is no longer involved in the path selection.",
+        technique="Lean 4 model + Spec DP with maximality proof; differential correspondence and two-sided Spec oracle",
     ),
     "C05": dict(
         text="Theorems for all kernels with strictly increasing lines: offset_ok/map_back/double_disjoint; pathsFrom_iff (the search "
